@@ -53,7 +53,9 @@ def monStep (st : St) (bl : Block) : St × List String :=
     let st' := { st with n := st.n + 1, bad := st.bad + (if interiorZero then 1 else 0),
                          borderZero := st.borderZero + (if borderZ && !interiorZero then 1 else 0) }
     match bl.outs with
-    | [("bad" :: _)] => (st', if interiorZero then [] else ["prop=C13 reason=frame-without-interior-zero-rejected"])
+    | [("bad" :: _)] => (st', if interiorZero then [] else
+        ["prop=C13 reason=frame-without-interior-zero-rejected"] ++
+        (if borderZ then ["prop=C08 reason=border-pixel-made-the-parser-reject-the-frame"] else []))
     | [("ok" :: rest)] =>
       let pixHex := (rest.find? (·.startsWith "pix=")).map (fun s => (s.drop 4).toString)
       let expPix := String.join ((DetStream.tabulateArr w h (fun y x => pixel word raw off w y x)).toList.map DetStream.toHex4)
